@@ -55,10 +55,14 @@ impl CacheCfg {
     }
 }
 
+/// instance i of the specification has the key i - 1: the first instance is the all-zero key, whose handle equals HANDLE_NIL
 pub fn inst_handle(i: u64) -> InstanceHandle {
     let mut b = [0u8; 16];
-    b[0] = i as u8;
+    b[0] = (i - 1) as u8;
     InstanceHandle::new(b)
+}
+fn inst_of(h: [u8; 16]) -> u8 {
+    h[0] + 1
 }
 pub fn writer_guid(w: u64) -> Guid {
     Guid::new([w as u8; 12], EntityId::new([0, 0, w as u8], 0x02))
@@ -231,7 +235,7 @@ fn writer_of(g: &[u8]) -> u64 {
 fn info_json(data: &[u8], si: &SampleInfo) -> Value {
     json!({
         "id": id_of(data),
-        "i": <[u8;16]>::from(si.instance_handle)[0],
+        "i": inst_of(<[u8;16]>::from(si.instance_handle)),
         "w": writer_of(si.publication_handle.as_ref()),
         "valid": si.valid_data,
         "ts": ts_of(si.source_timestamp),
@@ -294,7 +298,7 @@ impl Model for CacheModel {
                             }
                             SampleRejectedStatusKind::NotRejected => "NOT_REJECTED",
                         };
-                        json!({"res": "Rejected", "reason": reason, "handle": <[u8;16]>::from(h)[0]})
+                        json!({"res": "Rejected", "reason": reason, "handle": inst_of(<[u8;16]>::from(h))})
                     }
                     // an error (change of an unknown instance) means the change is ignored
                     Err(_) => json!({"res": "NotAdded", "err": true}),
@@ -348,7 +352,7 @@ impl Model for CacheModel {
             .map(|s| {
                 json!({
                     "id": id_of(&s.data_value),
-                    "i": <[u8;16]>::from(s.instance_handle)[0],
+                    "i": inst_of(<[u8;16]>::from(s.instance_handle)),
                     "w": writer_of(&s.writer_guid),
                     "kind": kind_str(s.kind),
                     "ts": ts_of(s.source_timestamp),
@@ -364,7 +368,7 @@ impl Model for CacheModel {
             .iter()
             .map(|x| {
                 let (v, s, d, n) = x.verif_snapshot();
-                let i = <[u8; 16]>::from(x.handle)[0];
+                let i = inst_of(<[u8; 16]>::from(x.handle));
                 (
                     i,
                     json!({"i": i, "view": vs_str(v), "is": is_str(s), "dgc": d, "nwgc": n}),
